@@ -345,14 +345,25 @@ func (c *Ctx) CallerTable(which, rule string, crs []CallerRule) {
 		okAll := true
 		callers := map[string]bool{}
 		for _, s := range sites {
-			callers[s.Caller] = true
 			allowed := false
 			for _, a := range cr.Allowed {
 				if a == s.Caller {
 					allowed = true
+					callers[s.Caller] = true
+				}
+			}
+			if !allowed && !s.AsVal {
+				// an unexported helper that is itself called only by listed callers (a block of a listed caller
+				// extracted into a function) is the listed caller's code
+				if roots := c.privateHelperRoots(which, s.Caller, cr.Allowed, 3); len(roots) > 0 {
+					allowed = true
+					for _, r := range roots {
+						callers[r] = true
+					}
 				}
 			}
 			if !allowed {
+				callers[s.Caller] = true
 				okAll = false
 				how := "calls"
 				if s.AsVal {
@@ -367,6 +378,62 @@ func (c *Ctx) CallerTable(which, rule string, crs []CallerRule) {
 			c.ok(rule, "callers of "+cr.Callee, "", fmt.Sprintf("%d call site(s) in %d listed caller(s)", len(sites), len(callers)))
 		}
 	}
+}
+
+// privateHelperRoots: fn (by key) is an unexported function or method, never used as a value, with at least one
+// call site, and every one of its callers is a listed caller or again such a helper (bounded depth). Returns the
+// listed callers it is reached from, or nil when fn is not such a helper.
+func (c *Ctx) privateHelperRoots(which, key string, allowed []string, depth int) []string {
+	if depth == 0 {
+		return nil
+	}
+	name := key
+	if i := strings.LastIndexAny(name, "./"); i >= 0 {
+		name = name[i+1:]
+	}
+	if name == "" || !(name[0] >= 'a' && name[0] <= 'z') || name == "init" {
+		return nil
+	}
+	e := c.Engine(which)
+	if e == nil || e.P.Funcs[key] == nil {
+		return nil
+	}
+	sites, ok := c.CallersOf(which, key)
+	if !ok || len(sites) == 0 {
+		return nil
+	}
+	roots := map[string]bool{}
+	for _, s := range sites {
+		if s.AsVal {
+			return nil
+		}
+		if s.Caller == key {
+			continue // recursion
+		}
+		listed := false
+		for _, a := range allowed {
+			if a == s.Caller {
+				listed = true
+			}
+		}
+		if listed {
+			roots[s.Caller] = true
+			continue
+		}
+		sub := c.privateHelperRoots(which, s.Caller, allowed, depth-1)
+		if len(sub) == 0 {
+			return nil
+		}
+		for _, r := range sub {
+			roots[r] = true
+		}
+	}
+	var out []string
+	for r := range roots {
+		out = append(out, r)
+	}
+	sort.Strings(out)
+	return out
 }
 
 var _ = interp.New
